@@ -798,6 +798,10 @@ def vec_build(inp, W):
         arr = W.np.full(len(seq), None, object)
         for i, x in enumerate(seq): arr[i] = x
         seq = arr
+    elif inp.get("source") == "iter":
+        seq = (x for x in list(seq))          # a one-shot iterator over the same values
+    elif inp.get("source") == "tuple":
+        seq = tuple(seq)
     v = di.Vector(seq, dt) if dt is not None else di.Vector(seq)
     res = {"v": v, "is_na": v.is_na(), "tolist": v.tolist()}
     back = di.Vector(v.tolist(), v.dtype)
